@@ -63,6 +63,15 @@ pub fn bundles() -> Vec<(String, SpendBundle)> {
     v.push(("empty".into(), SpendBundle::new(vec![], Signature::default())));
     v.push(("two-spends".into(), SpendBundle::new(vec![spend(1, 1000, solution_for(1000, 10)), spend(2, 0x8000, solution_for(0x8000, 0x7fff))], Signature::default())));
     v.push(("five-similar-spends".into(), SpendBundle::new((1..=5).map(|i| spend(i, 5000, solution_for(5000, 100 + i as u64))).collect(), Signature::default())));
+    // the spend-count limit of the mempool mode (LIMIT_SPENDS): 6000 spends are admitted, 6001 are not
+    for n in [6000usize, 6001] {
+        v.push((format!("spends-{n}"), SpendBundle::new((0..n).map(|i| {
+            let mut p = [0u8; 32]; p[0] = (i >> 8) as u8; p[1] = i as u8; p[2] = 0x5a;
+            let puzzle = [1u8];
+            let ph = clvm_utils::tree_hash_atom(&puzzle).to_bytes();
+            CoinSpend::new(Coin::new(p.into(), ph.into(), 1), Program::new(puzzle.as_slice().into()), vec![0x80u8].into())
+        }).collect(), Signature::default())));
+    }
     // a spend whose own assertion fails (rejected everywhere)
     v.push(("wrong-my-amount".into(), SpendBundle::new(vec![spend(1, 1000, solution_for(999, 1))], Signature::default())));
     // minting (rejected everywhere)
@@ -107,6 +116,14 @@ pub fn check_bundle(name: &str, b: &SpendBundle, interned: bool) -> (u64, Vec<(S
         let mut ib = InternedBlockBuilder::new(&TEST_CONSTANTS);
         if let Ok((true, _)) = ib.add_spend_bundles([b], 0) {
             if let Ok((g, _, _)) = ib.finalize() { gens.push(("interned-builder", g)); }
+        }
+    }
+    // verdicts the rules prescribe for the mempool path
+    for (bn, want) in [("spends-6000", true), ("spends-6001", false), ("amount-0x8000000000000000", true), ("amount-0xffffffffffffffff", true),
+                       ("two-spends", true), ("wrong-my-amount", false), ("minting", false), ("empty", true)] {
+        if name == bn {
+            n += 1;
+            if mem.is_ok() != want { fails.push((format!("{name}/{tag}/mempool-verdict"), format!("run_spendbundle accepted = {}, the rules say {want}", mem.is_ok()))); }
         }
     }
     for (gname, g) in &gens {
